@@ -96,7 +96,12 @@ class Lin:
                 return (-r[1] + self.const, -r[0] + self.const)
         lo = hi = self.const
         for s, c in self.terms.items():
-            a, b = s.lo * c, s.hi * c
+            slo, shi = s.lo, s.hi
+            if refine:
+                r1 = refine.get(((s.name, 1),))
+                if r1 is not None:
+                    slo, shi = max(slo, r1[0]), min(shi, r1[1])
+            a, b = slo * c, shi * c
             if c == 0:
                 continue
             # guard inf*0 (cannot happen: c != 0)
